@@ -620,7 +620,7 @@ def build_unit(repo: Path, template: Path, checks=False, defs=None):
 
 def run_verus(unit_path: Path, timeout=600):
     t0 = time.time()
-    p = subprocess.run(["verus", str(unit_path), "--output-json", "--time", "--multiple-errors", "20"], stdout=subprocess.PIPE, stderr=subprocess.PIPE, text=True,
+    p = subprocess.run(["verus", str(unit_path), "--output-json", "--time", "--multiple-errors", "20", "--rlimit", "40"], stdout=subprocess.PIPE, stderr=subprocess.PIPE, text=True,
                        timeout=timeout)
     wall = time.time() - t0
     js = None
